@@ -676,7 +676,11 @@ impl<'a> Pool<'a> {
                     fields.truncate(1);
                 }
                 let it = Spec::Item(self.pos_item(Strict::Any));
-                fields.push(Spec::wrap(W::Optional { catch: false }, self.id(), it));
+                fields.push(match self.rng.below(3) {
+                    0 => Spec::wrap(W::Fallback, self.id(), it),
+                    1 => Spec::wrap(W::FallbackWithOk, self.id(), it),
+                    _ => Spec::wrap(W::Optional { catch: false }, self.id(), it),
+                });
             }
         } else {
             for _ in 0..self.rng.range(1, 2) {
